@@ -37,7 +37,8 @@ def scenario(rng):
     reject_first = rng.random() < 0.2
     stop_at = round(rng.uniform(0.5, horizon), 3) + 0.0003
     seed = rng.randrange(10 ** 9)
-    return dict(mode=mode, horizon=horizon, hook=hook_pat, n_msgs=n_msgs, n_in=n_in, drops=drops, reject_first=reject_first,
+    stalls = rng.choice((0, 0, 1, 3))
+    return dict(stalls=stalls, mode=mode, horizon=horizon, hook=hook_pat, n_msgs=n_msgs, n_in=n_in, drops=drops, reject_first=reject_first,
                 stop_at=stop_at, seed=seed)
 
 
@@ -83,7 +84,7 @@ def run(sc):
         asyncio.open_connection = open_connection
         for _ in range(sc['n_msgs']):
             t = round(rng.uniform(0.1, sc['horizon']), 3)
-            text = rng.choice(('hello', 'x' * 200, 'ж' * 90))
+            text = rng.choice(('hello', 'x' * 600, 'ж' * 200, 'y' * 9000))
             auto = rng.random() < 0.5
             s.at(t, s.enqueue, SubmitSm(short_message=text, auto_message_payload=auto, log_id='m'))
         seqs = {'n': 9000}
@@ -112,6 +113,11 @@ def run(sc):
         for _ in range(sc['n_in']):
             s.at(round(rng.uniform(0.1, sc['horizon']), 3) + 0.0001,
                  inbound, rng.choice(('deliver', 'deliver', 'enq', 'unsupported', 'bad', 'seg', 'stray-resp', 'burst')))
+        # back-pressure episodes: the peer stops reading for a while, so drain() really suspends
+        for _ in range(sc.get('stalls', 0)):
+            t0 = round(rng.uniform(0.5, sc['horizon']), 3) + 0.0004
+            s.at(t0, lambda: s.smsc.conns and s.smsc.conns[-1].stall(True))
+            s.at(t0 + rng.choice((0.3, 1.0, 2.5)), lambda: [c.stall(False) for c in s.smsc.conns])
         for _ in range(sc['drops']):
             s.at(round(rng.uniform(1.0, sc['horizon']), 3) + 0.0002,
                  lambda: s.smsc.conns and rng.choice((s.smsc.conns[-1].feed_eof, s.smsc.conns[-1].reset))())
@@ -215,6 +221,20 @@ def predicate(sc, ev, state):
             return 'first PDU on connection %d is %08x, not the bind request of mode %s' % (c, first, sc['mode'])
         if sc['mode'] == 'RECEIVER' and any(struct.unpack('!I', p[4:8])[0] == 4 for p in split_pdus(stream)):
             return 'submit_sm written by an ESME bound as receiver'
+    # every response written echoes the sequence number of a request the peer delivered on that connection, once
+    open_req = {}
+    for e in ev:
+        if e[1] == 'fed':
+            for p in split_pdus(e[3]):
+                if recognised(p) and struct.unpack('!I', p[4:8])[0] < 0x80000000:
+                    open_req.setdefault(e[2], []).append(struct.unpack('!I', p[12:16])[0])
+        elif e[1] == 'write':
+            cmd, _st, seq = struct.unpack('!III', e[3][4:16])
+            if cmd >= 0x80000000:
+                lst = open_req.get(e[2], [])
+                if seq not in lst:
+                    return 'response %08x with sequence number %d answers no request delivered on connection %d' % (cmd, seq, e[2])
+                lst.remove(seq)
     # received exactly once: every fed recognised PDU that was answered or followed by later traffic reached the hook once
     fed = [p for e in ev if e[1] == 'fed' for p in split_pdus(e[3]) if recognised(p)]
     got = [e[3] for e in ev if e[1] == 'received']
